@@ -463,6 +463,18 @@ class DLock:
         self.release()
 
 
+class DLockQuiet(DLock):
+    """a DLock whose acquisition is a scheduling point only when it has to wait: taking a free lock is not a step of its own
+    (it commutes with everything except another acquisition of the same lock, which is still ordered by the waits)"""
+
+    def acquire(self, blocking=True, timeout=-1):
+        if self._owner is None:
+            s = cur()
+            self._owner = (s.me() if s else None) or True
+            return True
+        return DLock.acquire(self, blocking, timeout)
+
+
 class DRLock:
     """threading.RLock replacement (owner + recursion count)"""
 
